@@ -1,7 +1,7 @@
 from props import TB_COMMON
 ENTRY = dict(
     level="proof",
-    level_text=("Lean 4 theorems: xgDecide returns the first flow (outgoing order, default removed, wherever the default sits) "
+    level_text=("ENGINE LEVEL (Props/EngineSteps, any program / state / configuration): a token arriving at an exclusive gateway continues as ONE token — the same token id — on the flow xgDecide picks over the gateway's own outgoing list (xor_step_take; first true condition: xor_routes_first_true; default: xor_routes_default), or is parked with the error observation (xor_step_error); never two tokens (xor_step_at_most_one). KERNEL: Lean 4 theorems: xgDecide returns the first flow (outgoing order, default removed, wherever the default sits) "
                 "whose condition is true, else the default, else the error, for all lists; in the gateway actor a message of "
                 "one token never touches another token's probing entry nor produces another token's output, and both arrival "
                 "orders of {probing report, second next-action} yield exactly one probe and one reply equal to xgDecide of "
@@ -12,7 +12,7 @@ ENTRY = dict(
                 "condition language (validated by the c04cond differential); the interleaving statement is proved per message "
                 "(independence of tokens) and for the two per-token orders, not as one theorem over arbitrary inboxes"),
     technique="Lean 4 proof (decision kernel + per-token independence of the gateway actor) + exhaustive differential",
-    lean_modules=["Bpmn.Props.C04", "Bpmn.Props.EngineCurrent", "Bpmn.Props.C04Current"],
+    lean_modules=["Bpmn.Props.EngineSteps", "Bpmn.Props.C04", "Bpmn.Props.EngineCurrent", "Bpmn.Props.C04Current"],
     families=["c04cond", "c04", "c04host"],
     exhaustive=True,
     facts_from=["Engine"],   # plus its own Bpmn.Gen.C04 (xpathVarsReachable: which model of the XPath engine c04cond uses)
